@@ -254,7 +254,8 @@ def _probed_tanh_policy():
 
 
 def _box_env(rec, sc):
-    return ScriptEnv(rec, sc["script"], low=sc.get("low", (-1.0, -0.5)), high=sc.get("high", (2.0, 0.25)))
+    return ScriptEnv(rec, sc["script"], low=sc.get("low", (-1.0, -0.5)), high=sc.get("high", (2.0, 0.25)),
+                     act_dtype=np.float64 if sc.get("act_dtype") == "float64" else np.float32)
 
 
 def _ddpg_like(name, sc, train, double_q, extra, lap=False):
@@ -346,7 +347,8 @@ def scenarios(tier, seed, routine=None):
         dict(base, label="A", script=[(3, "term"), (1, "trunc"), (2, "trunc"), (4, "term"), (1, "term")], budget=26, start=0, eplimit=0, warm=6),
         # scenario B runs with the boundary seed 0 (a falsy seed must still be a seed)
         dict(base, label="B", script=[(2, "trunc"), (3, "term"), (1, "term")], budget=17, start=3, eplimit=0, warm=5, seed=0),
-        dict(base, label="C", script=[(4, "term"), (2, "trunc"), (3, "term")], budget=30, start=0, eplimit=4, warm=4),
+        # scenario C: the action space is declared with dtype float64 (continuous routines)
+        dict(base, label="C", script=[(4, "term"), (2, "trunc"), (3, "term")], budget=30, start=0, eplimit=4, warm=4, act_dtype="float64"),
     ]
     if routine in VALUE_BASED:
         # exploration discipline (C13): epsilon interposed to 0 (always greedy after warm-up) and to 1 (never greedy)
